@@ -9,8 +9,9 @@ CONSTANTS
     CapN = 2
     Cache = 4096
     Compress = FALSE
+    CapProbe = TRUE
     Debug = FALSE
     HookMode = "ok"
 VIEW View
-PROPERTIES HttpEqualsPipe OneTurnPerContinuation CapsHold HookBalanced
+PROPERTIES HttpEqualsPipe OneTurnPerContinuation CapsHold CapReplaces HookBalanced
 CHECK_DEADLOCK FALSE
